@@ -63,7 +63,7 @@ theorem ParkInv.tr {b b' : Book} (h : ParkInv b) (t : Tr b b') : ParkInv b' := b
     · have := h p h1; unfold AddGuards at this ⊢; rw [fr.1]; exact this
     · unfold AddGuards at h1 ⊢; rw [fr.1]; exact h1
   | drop v hv => intro p hp; have := h p (by simpa using hp); unfold AddGuards at this ⊢; simpa using this
-  | insert v es ok hes hcomp => intro p hp; exact h p hp
+  | insert v es ok hes hcomp hzero => intro p hp; exact h p hp
   | unlink x hx => intro p hp; exact h p hp
 
 theorem LedgerInv.tr {b b' : Book} (h : LedgerInv b) (t : Tr b b') : LedgerInv b' :=
